@@ -49,7 +49,8 @@ claim('C06', 'exploration',
       'subset / update with foreign item / update empty / remove} up to length 6 (thorough: the whole space; quick: all '
       'scripts up to length 3 plus a seeded sample of the length-5 space) x {close, abort}, each on a fresh CIF, judged '
       'by a state-machine model with unique cell values, while a second block and a save frame holding loops of the same '
-      'item names must stay untouched; plus empty-loop, destroyed-loop, remove-all, two-loop and refused-request cases.',
+      'item names must stay untouched; plus empty-loop, destroyed-loop, remove-all, two-loop and refused-request cases, and '
+      '72 scripts on two-packet loops of 330 - 1400 items (the internal name tables grow several times).',
       'Packet order is unspecified: a NULL-sink next is assumed to consume packets in storage order.  After '
       'CIF_FINISHED update/remove may be refused or act on the last delivered packet.',
       'runtime monitoring: bounded-exhaustive script enumeration against a state-machine oracle under ASan/UBSan',
@@ -87,7 +88,9 @@ claim('C08', 'exploration',
       'padding of every byte length 0..4095 after the first line (every alignment against the 4096-byte read buffer, '
       'for LF and CR LF), UTF-16 input at 128 alignments, tokens of 131 190 .. 300 000 units (text field, triple-quoted, '
       'comment, unquoted, 100 000 CR LF pairs), leading CR / CR LF / BOM+CR, CR LF pairs straddling a fill boundary, 270 kB '
-      'documents with ordinary tokens at the scan-buffer compaction points and ending inside a compaction window - must '
+      'documents with ordinary tokens at the scan-buffer compaction points and ending inside a compaction window, 280 k-unit '
+      'documents of supplementary-plane characters in a text field, in comments and in quoted / unquoted / triple-quoted '
+      'values, list elements, table keys and data names (a surrogate pair is split wherever the buffer runs full) - must '
       'yield the same dump and the same (error code, line) sequence, lines shifted by the padding.',
       'Held on the enumerated alignments and seeded base documents.  The reference parse of the well-formed part is '
       'itself tied to the generator\'s content.',
@@ -98,7 +101,9 @@ claim('C11', 'exploration',
       'Exhaustive product of {no magic, 1.1, 1.0, 2.0, 2.0 on line 2, 2.0 after a blank} x {BOM, none} x prefer_cif2 in '
       '{-5,-1,0,1,19,20,99} x {UTF-8, UTF-16LE/BE, UTF-32LE/BE, six named 8-bit defaults (ISO-8859-1, windows-1252, '
       'ISO-8859-15, KOI8-R, US-ASCII, macintosh), signature-less UTF-16 default} x '
-      'force_default_encoding x {ASCII, non-ASCII} probe (3696 cells) plus seven BOM-position cases.  The dialect is '
+      'force_default_encoding x {ASCII, non-ASCII} probe (3696 cells) plus seven BOM-position cases, plus a 12 kB CIF 2.0 '
+      'document of 1- to 4-byte characters served in the five signature-recognised encodings at 19 offsets against the '
+      'reader\'s byte buffer (same content, no error but the prescribed CIF_WRONG_ENCODING).  The dialect is '
       'observed with an error-free probe that reads differently (line-folded text field); dialect, decoded content, '
       'presence / absence of CIF_WRONG_ENCODING and absence of other errors are judged by a decision function '
       'transcribed from the statement.',
